@@ -13,6 +13,9 @@ CLAIMED = {
  "C18": ("Coq theorems, generic in the representation of roots/opcodes/arguments, about the slice/zip/len expressions regenerated from Path's methods on every run: len, values, items, int indexing (IndexError exactly outside [-n, n)), slicing = tuple slicing of the steps for ALL triples, ==, startswith, Path(p, q) concatenation; __setstate__(__getstate__ x) = x; glom(t, Path(p, q)) = glom(glom(t, p), q). repr: an executable token-level model of _format_t/_format_path/_format_slice/format_invocation and of eval's reading (Path.__init__ flattening) is compared with the real repr tokens, the real eval and pickle on every case; the codec round-trip theorem about that model is staged (DESIGN.md section 12).",
          "DESIGN.md section 7 C18", TB + "; Python's tokenizer/parser, repr of atoms and pickle outside the model",
          "Coq proof (sequence laws over regenerated slice expressions) + executable repr/eval model in correspondence with real repr/eval/pickle"),
+ "C14": ("Coq theorems over ALL object graphs (cyclic, shared, dangling): the id()-guarded work list of ** terminates with the fuel |h|+2*edges+2 the model supplies (a real termination proof by a decreasing measure, not a fuel assumption); its result is the value itself followed by the children of every container of the result, each expanded exactly once (NoDup) in order of first occurrence, hence breadth first; it contains exactly the reachable values (sound + complete); * is the children in natural order; entries after a wildcard are evaluated independently with failing ones dropped and order kept; every wildcard adds one list level. Tie: vm_compute correspondence of the graph model against glom on random DAG-shaped and cyclic heaps in text and Path/T spelling, each run under an alarm.",
+         "DESIGN.md section 7 C14", TB + "; sets and containers whose element access raises are not generated; Assign/Delete broadcast is covered under C11/C12",
+         "Coq proof (termination measure + work-list invariant) + graph-model vs implementation correspondence"),
 }
 REASON_WIP = "check not built yet (work in progress; see DESIGN.md section 7 for the plan)"
 NA = {}
